@@ -3,13 +3,26 @@ From Verif Require Import Common.Base Common.Tactics Common.Lx Gen.Tables Html.M
      Html.Hash Html.Safety Html.Step.
 From Coq Require Import ZifyBool.
 
-(* "</" + a maximal run of n letters whose lower-cased hash is raw, at offset p of buf *)
-Definition end_tag_at (raw : Z) (buf : list Z) (p : Z) : Prop :=
+(* "</" + a maximal run of n letters whose lower-cased hash is raw, at offset p of buf.
+   strict: the byte after the letters is whitespace, '/', '>' or the end of input (the terminator, last byte of buf). *)
+Definition end_tag_gen (strict : bool) (raw : Z) (buf : list Z) (p : Z) : Prop :=
   peekz buf p = Some 60 /\ peekz buf (p + 1) = Some 47 /\
   exists n, 0 <= n /\
     (forall i, p + 2 <= i < p + 2 + n -> exists c, peekz buf i = Some c /\ is_letter c = true) /\
-    (exists c, peekz buf (p + 2 + n) = Some c /\ is_letter c = false) /\
+    (exists c, peekz buf (p + 2 + n) = Some c /\ is_letter c = false /\
+               (strict = true -> is_tagend c = true \/ (c = 0 /\ p + 2 + n = len buf - 1))) /\
     to_hash (map lower (slice buf (p + 2) (p + 2 + n))) = Ok raw.
+
+(* an end tag of the element: what ends raw text *)
+Definition end_tag_at := end_tag_gen true.
+(* "</name" followed by any non-letter: what still ends a script inside its "<!--" section *)
+Definition end_tag_weak := end_tag_gen false.
+
+Lemma end_tag_at_weak raw buf p : end_tag_at raw buf p -> end_tag_weak raw buf p.
+Proof.
+  intros (P0 & P1 & n & Hn & Pl & (c & Pc & Pnl & _) & Ph). split; [exact P0|]. split; [exact P1|].
+  exists n. split; [exact Hn|]. split; [exact Pl|]. split; [|exact Ph]. exists c. split; [exact Pc|]. split; [exact Pnl|discriminate].
+Qed.
 
 (* cursors over the same buffer with the same selection start *)
 Definition same (z z' : lx) : Prop := lbuf z' = lbuf z /\ lstart z' = lstart z.
@@ -54,29 +67,42 @@ Qed.
 (* at a "</", after the letters loop: the tag found there, and nothing else between *)
 Lemma end_tag_here raw z z2 h : pk z 0 = Some 60 -> pk z 1 = Some 47 -> letters_loop (mv z 2) = Ok z2 ->
   hash_lexeme_from z2 (mark z + 2) = Ok h ->
-  (h = raw -> end_tag_at raw (lbuf z) (lpos z)) /\
-  (h <> raw -> forall p, lpos z <= p < lpos z2 -> ~ end_tag_at raw (lbuf z) p).
+  exists cs, pk z2 0 = Some cs /\
+  (h = raw -> end_tag_weak raw (lbuf z) (lpos z)) /\
+  (h = raw -> is_tagend cs || eof0 z2 cs = true -> end_tag_at raw (lbuf z) (lpos z)) /\
+  (forall strict, h <> raw -> forall p, lpos z <= p < lpos z2 -> ~ end_tag_gen strict raw (lbuf z) p) /\
+  (is_tagend cs || eof0 z2 cs = false -> forall p, lpos z <= p < lpos z2 -> ~ end_tag_at raw (lbuf z) p).
 Proof.
   intros H0 H1 Hl Hh. destruct (letters_loop_run _ _ Hl) as ((Hb & Hst) & Hle & Hlet & (cs & Hcs & Hns)).
   cbn [mv lbuf lstart lpos] in *. apply hash_lexeme_from_eq in Hh. destruct Hh as [_ Hh].
   unfold mark in Hh. rewrite Hb, Hst in Hh. replace (lstart z + (lpos z - lstart z + 2)) with (lpos z + 2) in Hh by lia.
   unfold pk in H0, H1. rewrite Z.add_0_r in H0.
-  split.
-  - intros ->. split; [exact H0|]. split; [exact H1|]. exists (lpos z2 - lpos z - 2). split; [lia|].
-    split; [intros i Hi; apply Hlet; lia|]. split.
-    + exists cs. replace (lpos z + 2 + (lpos z2 - lpos z - 2)) with (lpos z2) by lia. tauto.
-    + replace (lpos z + 2 + (lpos z2 - lpos z - 2)) with (lpos z2) by lia. exact Hh.
-  - intros Hne p Hp (P0 & P1 & n & Hn & Pl & (pc & Ppc & Pnl) & Phash).
+  exists cs. split; [unfold pk; rewrite Hb, Z.add_0_r; exact Hcs|].
+  assert (Hgen : forall strict, h = raw -> (strict = true -> is_tagend cs = true \/ (cs = 0 /\ lpos z2 = len (lbuf z) - 1)) ->
+                 end_tag_gen strict raw (lbuf z) (lpos z)).
+  { intros strict -> Hfol. split; [exact H0|]. split; [exact H1|]. exists (lpos z2 - lpos z - 2). split; [lia|].
+    split; [intros i Hi; apply Hlet; lia|]. replace (lpos z + 2 + (lpos z2 - lpos z - 2)) with (lpos z2) by lia.
+    split; [|exact Hh]. exists cs. split; [exact Hcs|]. split; [exact Hns|exact Hfol]. }
+  (* any match in the run is at lpos z with the same letters *)
+  assert (Hsame : forall strict p, lpos z <= p < lpos z2 -> end_tag_gen strict raw (lbuf z) p ->
+                  h = raw /\ (strict = true -> is_tagend cs = true \/ (cs = 0 /\ lpos z2 = len (lbuf z) - 1))).
+  { intros strict p Hp (P0 & P1 & n & Hn & Pl & (pc & Ppc & Pnl & Pfol) & Phash).
     destruct (Z.eq_dec p (lpos z)) as [->|Hpne].
-    + (* the same position: the letter run is the same, so the hash is h *)
-      assert (n = lpos z2 - lpos z - 2).
+    - assert (n = lpos z2 - lpos z - 2).
       { destruct (Z.lt_trichotomy n (lpos z2 - lpos z - 2)) as [Hlt|[?|Hgt]]; [|assumption|].
         - destruct (Hlet (lpos z + 2 + n) ltac:(lia)) as (c & Hc & Hcl). rewrite Ppc in Hc. congruence.
         - destruct (Pl (lpos z2) ltac:(lia)) as (c & Hc & Hcl). rewrite Hcs in Hc. congruence. }
-      subst n. replace (lpos z + 2 + (lpos z2 - lpos z - 2)) with (lpos z2) in Phash by lia. congruence.
-    + (* another position in the run: it holds '/' or a letter, not '<' *)
-      destruct (Z.eq_dec p (lpos z + 1)) as [->|Hp1]; [rewrite H1 in P0; discriminate|].
-      destruct (Hlet p ltac:(lia)) as (c & Hc & Hcl). rewrite P0 in Hc. injection Hc as <-. discriminate.
+      subst n. replace (lpos z + 2 + (lpos z2 - lpos z - 2)) with (lpos z2) in * by lia.
+      rewrite Hcs in Ppc. injection Ppc as <-. split; [congruence|exact Pfol].
+    - exfalso. destruct (Z.eq_dec p (lpos z + 1)) as [->|Hp1]; [rewrite H1 in P0; discriminate|].
+      destruct (Hlet p ltac:(lia)) as (c & Hc & Hcl). rewrite P0 in Hc. injection Hc as <-. discriminate. }
+  split; [intros E; apply Hgen; [exact E|discriminate]|]. split; [|split].
+  - intros E Hf. apply Hgen; [exact E|]. intros _. apply orb_true_iff in Hf. destruct Hf as [Hf|Hf]; [left; exact Hf|right].
+    unfold eof0, at_end, lx_len in Hf. rewrite Hb in Hf. apply peekz_some in Hcs. b2p. split; lia.
+  - intros strict Hne p Hp Hm. destruct (Hsame strict p Hp Hm) as [E _]. congruence.
+  - intros Hf p Hp Hm. destruct (Hsame true p Hp Hm) as [_ Hfol]. apply orb_false_iff in Hf. destruct Hf as [Hf1 Hf2].
+    destruct (Hfol eq_refl) as [Ht|[-> Hend]]; [congruence|].
+    unfold eof0, at_end, lx_len in Hf2. rewrite Hb in Hf2. cbn [Z.eqb andb] in Hf2. b2p. lia.
 Qed.
 
 Lemma not_lt_here buf raw p c : peekz buf p = Some c -> c <> 60 -> ~ end_tag_at raw buf p.
@@ -133,14 +159,14 @@ Qed.
 Lemma script_comment_run zs b fuel r : loop fuel script_comment_body (zs, b) = Ok r ->
   match r with
   | inl z' => samele zs z'
-  | inr z' => samele zs z' /\ (at_end z' = true \/ end_tag_at html_hash_Script (lbuf zs) (lpos z'))
+  | inr z' => samele zs z' /\ (at_end z' = true \/ end_tag_weak html_hash_Script (lbuf zs) (lpos z'))
   end.
 Proof.
   intros H.
   refine (loop_inv (fun s => samele zs (fst s))
             (fun r => match r with
                       | inl z' => samele zs z'
-                      | inr z' => samele zs z' /\ (at_end z' = true \/ end_tag_at html_hash_Script (lbuf zs) (lpos z'))
+                      | inr z' => samele zs z' /\ (at_end z' = true \/ end_tag_weak html_hash_Script (lbuf zs) (lpos z'))
                       end) script_comment_body _ _ (zs, b) r _ H); [|apply samele_refl].
   clear. intros [s ins] x Hs Hx. cbn [fst] in Hs. unfold script_comment_body in Hx.
   destruct (pkr s 0) as [c| |] eqn:E0; cbn [rbind] in Hx; try discriminate.
@@ -171,7 +197,7 @@ Proof.
       right.
       assert (Hmk : mark (mv s 2) = mark s + 2) by (unfold mark; cbn; lia). rewrite Hmk in Eh.
       b2p. subst c c1 h.
-      destruct (end_tag_here html_hash_Script s z2 html_hash_Script Hp0 Hp1 El Eh) as [Hm _].
+      destruct (end_tag_here html_hash_Script s z2 html_hash_Script Hp0 Hp1 El Eh) as (cs & _ & Hm & _).
       destruct Hs as [[Hb _] _]. rewrite <- Hb. rewrite Hpos. apply Hm; reflexivity.
     - injection Hx as <-. exact Hsz2. }
   destruct (eof0 s c) eqn:Ee; injection Hx as <-.
@@ -186,14 +212,16 @@ Proof. intros H1 H2 p Hp. destruct (Z.lt_ge_cases p b); [apply H1|apply H2]; lia
 
 Lemma rawtext_loop_run c raw z has fuel r : loop fuel (rawtext_body c raw) (z, has) = Ok r ->
   same z (fst r) /\ lpos z <= lpos (fst r) /\
-  (at_end (fst r) = true \/ end_tag_at raw (lbuf z) (lpos (fst r))) /\
+  (at_end (fst r) = true \/ end_tag_at raw (lbuf z) (lpos (fst r)) \/
+   (raw = html_hash_Script /\ end_tag_weak raw (lbuf z) (lpos (fst r)))) /\
   (has_delims c = false -> raw <> html_hash_Script -> nomatch raw (lbuf z) (lpos z) (lpos (fst r))).
 Proof.
   intros H.
   refine (loop_inv (fun s => same z (fst s) /\ lpos z <= lpos (fst s) /\
                              (has_delims c = false -> raw <> html_hash_Script -> nomatch raw (lbuf z) (lpos z) (lpos (fst s))))
             (fun r => same z (fst r) /\ lpos z <= lpos (fst r) /\
-                      (at_end (fst r) = true \/ end_tag_at raw (lbuf z) (lpos (fst r))) /\
+                      (at_end (fst r) = true \/ end_tag_at raw (lbuf z) (lpos (fst r)) \/
+                       (raw = html_hash_Script /\ end_tag_weak raw (lbuf z) (lpos (fst r)))) /\
                       (has_delims c = false -> raw <> html_hash_Script -> nomatch raw (lbuf z) (lpos z) (lpos (fst r))))
             (rawtext_body c raw) _ _ (z, has) r _ H); [|split; [apply same_refl|split; [cbn; lia|intros _ _ p Hp; cbn in Hp; lia]]].
   clear H r. intros [s h0] x (Hs & Hle & Hnm) Hx. cbn [fst] in *. unfold rawtext_body in Hx.
@@ -215,14 +243,19 @@ Proof.
       destruct (hash_lexeme_from z2 (mark s + 2)) as [h| |] eqn:Eh; cbn [rbind] in Hx; try discriminate.
       destruct (letters_loop_run _ _ El) as (Hs2 & Hle2 & _). cbn [mv lpos] in Hle2.
       assert (c0 = 60) by (b2p; assumption). assert (c1 = 47) by (b2p; assumption). subst c0 c1.
-      destruct (end_tag_here raw s z2 h Hp0 Hp1 El Eh) as [Hm Hn]. rewrite Hb in Hm, Hn.
-      destruct (h =? raw) eqn:Ehr; injection Hx as <-; cbn [fst].
-      + assert (Hpos : lpos (rewind z2 (mark s)) = lpos s).
-        { unfold rewind, mark. cbn [lpos]. destruct Hs2 as [_ Hst2]. cbn [mv lstart] in Hst2. lia. }
-        split; [eapply same_trans; [exact Hs|eapply same_trans; [apply same_mv|eapply same_trans; [exact Hs2|apply same_rewind]]]|].
-        rewrite Hpos. split; [lia|]. split; [right; apply Hm; b2p; assumption|exact Hnm].
-      + split; [eapply same_trans; [exact Hs|eapply same_trans; [apply same_mv|exact Hs2]]|]. split; [lia|].
-        intros Hd Hr. eapply nomatch_app; [apply Hnm; assumption|]. intros p Hp. apply Hn; [b2p; assumption|exact Hp].
+      destruct (end_tag_here raw s z2 h Hp0 Hp1 El Eh) as (cs & Hcs & _ & Hm & Hn & Hnf). rewrite Hb in Hm, Hn, Hnf.
+      assert (Hcont : same z z2 /\ lpos z <= lpos z2) by (split; [eapply same_trans; [exact Hs|eapply same_trans; [apply same_mv|exact Hs2]]|lia]).
+      destruct (h =? raw) eqn:Ehr.
+      + unfold pkr in Hx. rewrite Hcs in Hx. cbn [opt_res rbind] in Hx.
+        destruct (is_tagend cs || eof0 z2 cs) eqn:Efol; injection Hx as <-; cbn [fst].
+        * assert (Hpos : lpos (rewind z2 (mark s)) = lpos s).
+          { unfold rewind, mark. cbn [lpos]. destruct Hs2 as [_ Hst2]. cbn [mv lstart] in Hst2. lia. }
+          split; [eapply same_trans; [exact Hs|eapply same_trans; [apply same_mv|eapply same_trans; [exact Hs2|apply same_rewind]]]|].
+          rewrite Hpos. split; [lia|]. split; [right; left; apply Hm; [b2p; assumption|reflexivity]|exact Hnm].
+        * split; [apply Hcont|]. split; [apply Hcont|].
+          intros Hd Hr. eapply nomatch_app; [apply Hnm; assumption|]. intros p Hp. apply Hnf; [reflexivity|exact Hp].
+      + injection Hx as <-; cbn [fst]. split; [apply Hcont|]. split; [apply Hcont|].
+        intros Hd Hr. eapply nomatch_app; [apply Hnm; assumption|]. intros p Hp. apply (Hn true); [b2p; assumption|exact Hp].
     - destruct (if (raw =? html_hash_Script) && (c1 =? 33)
                 then c2 <-- pkr s 2;; (if c2 =? 45 then c3 <-- pkr s 3;; Ok (c3 =? 45) else Ok false)
                 else Ok false) as [sc| |] eqn:Esc; cbn [rbind] in Hx; try discriminate.
@@ -240,7 +273,7 @@ Proof.
         * destruct Hr2 as [[Hr2 Hr2le] He]. cbn [mv lpos] in Hr2le.
           split; [eapply same_trans; [exact Hs|eapply same_trans; [apply same_mv|exact Hr2]]|].
           split; [lia|]. split; [|intros _ Hr; congruence].
-          destruct He as [He|He]; [left; exact He|right]. cbn [mv lbuf] in He. rewrite Hb in He. rewrite Hraw. exact He.
+          destruct He as [He|He]; [left; exact He|right; right]. cbn [mv lbuf] in He. rewrite Hb in He. split; [exact Hraw|]. rewrite Hraw. exact He.
       + injection Hx as <-. cbn [fst]. split; [eapply same_trans; [exact Hs|apply same_mv]|]. cbn [mv lpos]. split; [lia|].
         apply Hstep1. right. eauto. }
   destruct (tmpl_at c s) as [t| |] eqn:Et; cbn [rbind] in Hx; try discriminate.
@@ -264,17 +297,17 @@ Proof.
   destruct (eof0 s c) eqn:Ee; injection Hx as <-; [|exact I]. unfold eof0 in Ee. b2p. assumption.
 Qed.
 
-(* end_tag_at only looks at the bytes from p on *)
-Lemma end_tag_at_ext raw b1 b2 a p : (forall i, a <= i -> peekz b1 i = peekz b2 i) -> a <= p -> 0 <= a ->
-  end_tag_at raw b1 p -> end_tag_at raw b2 p.
+(* end_tag_gen only looks at the bytes from p on (and at the length of the buffer) *)
+Lemma end_tag_at_ext strict raw b1 b2 a p : (forall i, a <= i -> peekz b1 i = peekz b2 i) -> len b1 = len b2 -> a <= p -> 0 <= a ->
+  end_tag_gen strict raw b1 p -> end_tag_gen strict raw b2 p.
 Proof.
-  intros Hext Hap Ha (P0 & P1 & n & Hn & Pl & (c & Pc & Pnl) & Ph).
+  intros Hext Hlen Hap Ha (P0 & P1 & n & Hn & Pl & (c & Pc & Pnl & Pfol) & Ph).
   split; [rewrite <- Hext by lia; exact P0|]. split; [rewrite <- Hext by lia; exact P1|].
   exists n. split; [exact Hn|]. split; [intros i Hi; rewrite <- Hext by lia; apply Pl; exact Hi|].
-  split; [exists c; rewrite <- Hext by lia; tauto|].
+  split; [exists c; rewrite <- Hext by lia; rewrite <- Hlen; tauto|].
   rewrite <- Ph. f_equal. f_equal. symmetry.
   assert (L1 : p + 2 + n < len b1) by (apply peekz_some in Pc; lia).
-  assert (L2 : p + 2 + n < len b2) by (rewrite Hext in Pc by lia; apply peekz_some in Pc; lia).
+  assert (L2 : p + 2 + n < len b2) by lia.
   apply peekz_ext. intros i.
   destruct (Z.lt_ge_cases i 0) as [Hneg|Hneg]; [rewrite !peekz_neg by lia; reflexivity|].
   destruct (Z.lt_ge_cases i n) as [Hl|Hl].
